@@ -210,6 +210,10 @@ def gammas(run):
     for gl in ((2,) if quick else (2, 3)):
         for nrow in ((5,) if quick else (4, 5, 7)):
             out.append(({"strategy": "group_by", "L": 1, "nrow": nrow, "header": "explicit", "heights": [1, 2], "group_by_lines": gl}, 5))
+    # rows that need their second line only because of leading blanks / no-break spaces (indentation takes width)
+    for ind in ("lead", "nbsp"):
+        for nrow in ((5,) if quick else (4, 6, 9)):
+            out.append(({"strategy": "plain", "nrow": nrow, "header": "explicit", "heights": [1, 2], "indent_wrap": ind}, 4 if quick else 5))
     # page_by
     for L in (1, 2, 3):
         for nrow in ((4, 6) if quick else (3, 4, 5, 6, 8, 12)):
